@@ -203,3 +203,24 @@ Proof.
   - specialize (H 0). discriminate. - specialize (H 0). discriminate.
   - pose proof (H 0) as H0. injection H0 as ->. f_equal. apply IH. intro i. exact (H (S i)).
 Qed.
+
+(* ------------------------------------------------------------------ metadata specs as objects *)
+Lemma lookup_specs_of l n :
+  lookup_spec (specs_of l) n =
+  match find (fun kv => String.eqb (fst kv) n) l with
+  | Some kv => Some (cspec_default (snd kv)) | None => None end.
+Proof.
+  unfold lookup_spec, specs_of. induction l as [|[k s] l IH]; [reflexivity|].
+  cbn [map find fst snd]. destruct (String.eqb k n); [reflexivity|exact IH].
+Qed.
+
+Lemma spec_object_default l rs prov i p kv :
+  (p_default p = DNone \/ p_default p = DInvalid) ->
+  find (fun kv => String.eqb (fst kv) (p_name p)) l = Some kv ->
+  cn_default (entry_of (specs_of l) rs prov i p) =
+    [match cs_default (snd kv) with Some d => d | None => cs_min (snd kv) end] /\
+  cn_scalar (entry_of (specs_of l) rs prov i p) = true.
+Proof.
+  intros Hd Hf. unfold entry_of, arg_value. cbn [cn_default cn_scalar].
+  rewrite lookup_specs_of, Hf. destruct Hd as [-> | ->]; split; reflexivity.
+Qed.
